@@ -223,10 +223,19 @@ func init() {
 		if sr.re != nil && subj.IsConst() {
 			return BoolConst(sr.re.MatchString(subj.S))
 		}
-		// uninterpreted match(pattern, subject) with the axiom: the empty pattern matches everything
-		m := UFApp("re_match", SortBool, sr.pattern, subj)
-		ex.addPC(Implies(Eq(sr.pattern, StrConst("")), m))
-		return m
+		// Symbolic patterns range over lowercase literals (recorded as an assumption): for such a pattern the
+		// unanchored regular-expression match is exactly the substring relation, which is natively replayable.
+		if !sr.pattern.IsConst() {
+			ex.H.Assumes["symbolic regular expressions range over lowercase-letter literals (match = substring)"] = true
+			lit := StrIsLowerLiteral(sr.pattern)
+			ex.addPC(lit)
+			return StrContains(subj, sr.pattern)
+		}
+		if isLowerLiteral(sr.pattern.S) {
+			return StrContains(subj, sr.pattern)
+		}
+		ex.unsupported("MatchString of a non-literal pattern on a symbolic subject")
+		return nil
 	}
 	intrinsics["(*regexp.Regexp).String"] = func(ex *Exec, fn *ssa.Function, args []Value) Value {
 		p := args[0].(Pointer)
@@ -235,6 +244,15 @@ func init() {
 	// --- os / misc
 	intrinsics["os.Getenv"] = func(ex *Exec, fn *ssa.Function, args []Value) Value { return StrConst("") }
 	intrinsics["runtime.GC"] = func(ex *Exec, fn *ssa.Function, args []Value) Value { return nil }
+}
+
+func isLowerLiteral(s string) bool {
+	for _, r := range s {
+		if r < 'a' || r > 'z' {
+			return false
+		}
+	}
+	return true
 }
 
 type symRegexp struct {
